@@ -33,6 +33,7 @@ func Run(ctx *common.Ctx) {
 	if ctx.Thorough() {
 		nHist, nNative, nBridge = 5000, 3000, 4000
 	}
+	h.checkOjgTables()
 	h.textStream(nText)
 	h.parseStream(nParse)
 	h.pathStream(nHist)
@@ -45,4 +46,5 @@ func Run(ctx *common.Ctx) {
 	footer := "Definition res := Eval vm_compute in check_all cases.\nPrint res.\nDefinition gcount := Eval vm_compute in guard_count cases.\nPrint gcount.\nDefinition outside_broken := Eval vm_compute in outside_guard_broken cases.\nPrint outside_broken.\n"
 	ctx.WriteShards("cases", header, "case", footer, h.terms, h.descs, 16)
 	ctx.ReplayKnownLisp()
+	h.replayKnownGo()
 }
